@@ -881,3 +881,8 @@ def run(ctx):
     with ctx.rule("C09.R9", "T7", "escape_text copies what it does not escape unchanged, character by character (shared with C11.R8)", floor=1) as r:
         from rules.common import escape_text_rule
         escape_text_rule(r, ctx)
+
+    # what the printers emit for a collection with absent items ({1,,3}) is read back only if the collection recognisers start every element afresh (C16.R12)
+    from rules import C16 as _C16
+    ctx.borrow(_C16, {"C16.R12": ("C09.R10", "printed collections are read back: the collection recognisers reset the element recogniser after every element (C16.R12)")})
+
